@@ -223,6 +223,7 @@ void h_xq_x_reply(void)
         int more = !in_unlinked && !ok && !no && !again && strncmp(rp, "MORE ", 5) == 0;
         int final = in_unlinked || ok || again || more;
         V_ASSERT(G.verdicts <= 1 && G.msgs_after_retire == 0, "C01: at most one verdict, silence afterwards");
+        V_ASSERT(G.msgs_other == 0, "C07: a reply addressed to one client emits nothing that names another client");
         if (no) {
             V_ASSERT(G.kills == 1 && !G.live && G.kill_reason == rp + 3, "C05: a refusal rejects the client with exactly the service's text");
             V_ASSERT(G.accepts == 0, "C02: a client refused by a service is never accepted");
@@ -323,6 +324,7 @@ void h_xq_check(void)
     else
         iauth_xquery_check(req, (enum iauth_flags)in_flag);
 
+    V_ASSERT(G.msgs_other == 0, "C07: the query builder emits nothing that names another client");
     V_ASSERT(G.live && G.msgs == 0 && G.verdicts == 0 && G.gate_evals == 0 && G.kills == 0,
              "C01/C03: a data hook of a decision module sends queries only - it never decides or retires the client");
     V_ASSERT(G.queries == expect_total, "C06: each configured service is queried exactly when its protocol's data is known - not earlier, not skipped, not twice");
@@ -387,31 +389,20 @@ static struct conf_node_string *mk_child(const char *name, const char *value)
     return c;
 }
 
-void h_xq_services_changed(void)
+static void services_case(void)
 {
     static struct conf_node_object root;
     struct conf_node_string *c0 = NULL, *c1 = NULL;
     struct iauth_xquery_service *old[2] = { NULL, NULL };
     unsigned i, k;
-    V_IN(in_section); V_IN(in_oldtbl);
-    V_ASSUME(in_section.n <= 2 && in_section.type[0] <= 4 && in_section.type[1] <= 4);
-    V_ASSUME(in_oldtbl.used <= 2);
     memset(&root, 0, sizeof(root));
     root.base.name = "iauth_xquery"; root.base.type = CONF_OBJECT;
-    root.contents.compare = NULL; root.contents.cleanup = NULL;
     if (in_section.n >= 1) { c0 = mk_child("sA", tnames[in_section.type[0]]); root.contents.root = set_node(c0); root.contents.count = 1; }
     if (in_section.n >= 2) { c1 = mk_child("sB", tnames[in_section.type[1]]); set_node(c0)->next = set_node(c1); set_node(c1)->prev = set_node(c0); root.contents.count = 2; }
     xq_conf.root = &root;
-    /* previous table */
-    for (i = 0; i < 2; i++) {
-        V_ASSUME(in_oldtbl.who[i] <= 3 && in_oldtbl.otype[i] <= 3 && in_oldtbl.refs[i] < 1000);
-        if (i < in_oldtbl.used && in_oldtbl.who[i] != 0) {
+    for (i = 0; i < 2; i++)
+        if (i < in_oldtbl.used && in_oldtbl.who[i] != 0)
             old[i] = mk_srv(in_oldtbl.refs[i], in_oldtbl.otype[i], in_oldtbl.cfg[i] != 0, snames[in_oldtbl.who[i]]);
-            /* an entry that is neither configured nor referenced would already have been freed */
-            V_ASSUME(old[i]->configured || old[i]->refs > 0);
-        }
-    }
-    V_ASSUME(!(old[0] && old[1] && in_oldtbl.who[0] == in_oldtbl.who[1]));
     iauth_xquery_services.vec = malloc(4 * sizeof(void *)); V_ASSUME(iauth_xquery_services.vec != NULL);
     iauth_xquery_services.size = 4; iauth_xquery_services.used = in_oldtbl.used;
     for (i = 0; i < 2; i++) iauth_xquery_services.vec[i] = old[i];
@@ -436,9 +427,32 @@ void h_xq_services_changed(void)
         } else
             V_ASSERT(conf_n == 0, "C17: a service the new section does not (validly) name is no longer queried");
     }
-    /* "sC" (only in the old table) is unconfigured */
     for (i = 0; i < 4; i++)
         if (i < iauth_xquery_services.used && iauth_xquery_services.vec[i] && strcmp(iauth_xquery_services.vec[i]->name, "sC") == 0)
             V_ASSERT(!iauth_xquery_services.vec[i]->configured && iauth_xquery_services.vec[i]->refs > 0, "C17: a removed service stays only while clients still await it, unconfigured");
+    /* release this case's objects */
+    for (i = 0; i < 4; i++) if (i < iauth_xquery_services.used && iauth_xquery_services.vec[i]) free(iauth_xquery_services.vec[i]);
+    free(iauth_xquery_services.vec);
+    if (c0) free(set_node(c0));
+    if (c1) free(set_node(c1));
+}
+
+/* exhaustive over: section of 0-2 services (each one of the four protocols or an unknown word) x
+ * previous table of 0-2 slots (hole, or sA/sB/sC, configured or only still referenced): every
+ * case is executed concretely by the verifier */
+void h_xq_services_changed(void)
+{
+    unsigned n, t0, t1, u, w0, w1, s0, s1;
+    static const unsigned char st_cfg[3] = { 1, 1, 0 }, st_refs[3] = { 0, 1, 1 };
+    for (n = 0; n <= 2; n++) for (t0 = 0; t0 < (n >= 1 ? 5u : 1u); t0++) for (t1 = 0; t1 < (n >= 2 ? 5u : 1u); t1++)
+    for (u = 0; u <= 2; u++) for (w0 = 0; w0 < (u >= 1 ? 4u : 1u); w0++) for (s0 = 0; s0 < (w0 ? 3u : 1u); s0++)
+    for (w1 = 0; w1 < (u >= 2 ? 4u : 1u); w1++) for (s1 = 0; s1 < (w1 ? 3u : 1u); s1++) {
+        if (w0 && w0 == w1) continue;
+        in_section.n = n; in_section.type[0] = (unsigned char)t0; in_section.type[1] = (unsigned char)t1;
+        in_oldtbl.used = u; in_oldtbl.who[0] = (unsigned char)w0; in_oldtbl.who[1] = (unsigned char)w1;
+        in_oldtbl.cfg[0] = st_cfg[s0]; in_oldtbl.refs[0] = st_refs[s0]; in_oldtbl.cfg[1] = st_cfg[s1]; in_oldtbl.refs[1] = st_refs[s1];
+        in_oldtbl.otype[0] = 0; in_oldtbl.otype[1] = 2;
+        services_case();
+    }
     V_CANARY();
 }
